@@ -13,6 +13,7 @@ import (
 
 	"github.com/janelia-flyem/dvid/datastore"
 	"github.com/janelia-flyem/dvid/datatype/common/proto"
+	"github.com/janelia-flyem/dvid/dvid"
 
 	"verif/vsrv"
 )
@@ -166,6 +167,64 @@ func c11MoreScenarios() []c11Scenario {
 			}
 			return fmt.Sprintf("codes=%s type=%s", codes(w, 2), typ)
 		}})
+
+	// S2h / S2i: deleting a repo against an operation that saves the repo's metadata: the acknowledged deletion of one of
+	// its instances (whose background goroutine saves the repo when the data are gone), and a node note. Every sequential
+	// order ends with the repo gone, from the live manager and from the metadata a restarted server would load.
+	apiResp := func(err error) vsrv.Resp {
+		if err != nil {
+			return vsrv.Resp{Code: 400, Body: []byte(err.Error())}
+		}
+		return vsrv.Resp{Code: 200}
+	}
+	// what a restarted server would find for the world's repo, read from the metadata store itself (a reload of the
+	// whole store would also see what earlier worlds of this worker process left behind)
+	repoID := func(root string) string {
+		for _, r := range datastore.VerifDump(root).Repos {
+			if r.Root == root {
+				return fmt.Sprint(r.ID)
+			}
+		}
+		return "0"
+	}
+	repoGone := func(w *c11World) string {
+		live := "live-present"
+		if vsrv.Get("repo/"+w.root+"/info").Code >= 400 {
+			live = "live-gone"
+		}
+		var id uint32
+		fmt.Sscan(w.nodes["repoid"], &id)
+		blob, inMap, rootKnown, err := datastore.VerifStoredRepo(id, w.root)
+		if err != nil {
+			return live + " store-read-fails:" + trunc(err.Error(), 120)
+		}
+		return fmt.Sprintf("%s stored-repo=%v id-in-repo-map=%v root-in-version-map=%v", live, blob, inMap, rootKnown)
+	}
+	sc = append(sc, c11Scenario{name: "S2h:repo:delete-instance||delete-repo", setup: func() (*c11World, error) {
+		w, err := repoWorld()
+		if err == nil {
+			w.nodes["repoid"] = repoID(w.root)
+		}
+		return w, err
+	},
+		bodies: func(w *c11World) []func() {
+			return []func(){
+				func() { w.resp[0] = apiResp(datastore.DeleteDataByName(dvid.UUID(w.root), "kv", "")) },
+				func() { w.resp[1] = apiResp(datastore.DeleteRepo(dvid.UUID(w.root), "")) }}
+		},
+		verdict: func(w *c11World) (bad []string) { return nil },
+		observe: func(w *c11World) string { return repoGone(w) }})
+	sc = append(sc, c11Scenario{name: "S2i:repo:note||delete-repo", setup: func() (*c11World, error) {
+		root, err := vsrv.NewRepo()
+		return &c11World{root: root, nodes: map[string]string{"repoid": repoID(root)}, resp: make([]vsrv.Resp, 4)}, err
+	},
+		bodies: func(w *c11World) []func() {
+			return []func(){
+				func() { w.resp[0] = vsrv.PostS("node/"+w.root+"/note", `{"note":"n"}`) },
+				func() { w.resp[1] = apiResp(datastore.DeleteRepo(dvid.UUID(w.root), "")) }}
+		},
+		verdict: func(w *c11World) (bad []string) { return nil },
+		observe: func(w *c11World) string { return repoGone(w) }})
 
 	// ---- neuronjson ----
 	njWorld := func() (*c11World, error) {
